@@ -67,14 +67,23 @@ def decTimestamp (b : Bytes) : Option (Timestamp × Bytes) :=
       | none => none
       | some (s, r2) => some (⟨t, s⟩, r2)
 
-/-- A byte-string slot: bstr, or CBOR null (`BstrField.m2i(None) = None`). -/
+/-- A byte-string slot (`BstrField.m2i(x) = bytes(x)`, `TypeError → None`): a bstr is taken as it
+    is, CBOR null gives `None`, and — quirk of `bytes(int)` — an unsigned integer `n` gives `n` zero
+    octets (so `00` in place of `40` decodes to the empty string; one of the D20 classes).
+    Like the machine the code runs on (`MemoryError`), the model refuses the allocation above a
+    cap; the harness does not run inputs asking for ≥ 2^17 octets on the implementation. -/
+def bstrAllocCap : Nat := 131072
+
 def decOptBstr (b : Bytes) : Option (Option Bytes × Bytes) :=
   match decBstr b with
   | some (d, r) => some (some d, r)
   | none =>
-    match b with
-    | [] => none
-    | x :: r => if x == 0xf6 then some (none, r) else none
+    match decUint b with
+    | some (n, r) => if n < bstrAllocCap then some (some (List.replicate n 0), r) else none
+    | none =>
+      match b with
+      | [] => none
+      | x :: r => if x == 0xf6 then some (none, r) else none
 
 /-- Two unsigned integers when `c`, nothing (defaults 0, 0) otherwise (ConditionalField pair). -/
 def decFragPair (c : Bool) (b : Bytes) : Option (Nat × Nat × Bytes) :=
@@ -207,26 +216,33 @@ def decodeBundleRaw (b : Bytes) : Option Bundle :=
 /-! ## EID normalisation (`EidField.i2m (EidField.m2i x)`)
 
 The decoded EID is held as the text `dtn:<ssp>`; every encoding (and every CRC computation) goes
-through `urllib.parse.urlsplit` again, which removes TAB/CR/LF, cuts a `?query` / `#fragment`
-(defects D19/D20), and the field code re-inserts a `/` after a non-empty authority. -/
+through `urllib.parse.urlsplit` again. `urlsplit` removes TAB/CR/LF and splits authority, path,
+query and fragment; the field code re-inserts a `/` after a non-empty authority and (since the D19
+fix) appends the *raw* text from the first `?` or `#` on. -/
 
 def stripTRN (s : Bytes) : Bytes := s.filter (fun c => c != 9 && c != 10 && c != 13)
 /-- `/`, `?`, `#` end the authority -/
 def isDelim (c : UInt8) : Bool := c == 0x2f || c == 0x3f || c == 0x23
+/-- `?` or `#` -/
+def isQF (c : UInt8) : Bool := c == 0x23 || c == 0x3f
 /-- cut at the first `#` or `?` -/
-def cutQF (s : Bytes) : Bytes := s.takeWhile (fun c => c != 0x23 && c != 0x3f)
+def cutQF (s : Bytes) : Bytes := s.takeWhile (fun c => !isQF c)
+/-- the text from the first `#` or `?` on (`x[ix:]` in `EidField.i2m`) -/
+def tailQF (s : Bytes) : Bytes := s.dropWhile (fun c => !isQF c)
 /-- `[`, `]` (IPv6 literal checks) and non-ASCII (NFKC check) in the authority are outside the model -/
 def oddAuth (c : UInt8) : Bool := c == 0x5b || c == 0x5d || c ≥ 0x80
 
 def normSsp (ssp : Bytes) : Option Bytes :=
-  match stripTRN ssp with
-  | 0x2f :: 0x2f :: t =>
+  let tail := tailQF ssp
+  let s := stripTRN ssp
+  if s.take 2 == [0x2f, 0x2f] then
+    let t := s.drop 2
     let netloc := t.takeWhile (fun c => !isDelim c)
     let path := cutQF (t.dropWhile (fun c => !isDelim c))
     if netloc.any oddAuth then none
-    else if netloc.isEmpty then some path
-    else some ([0x2f, 0x2f] ++ netloc ++ (match path with | 0x2f :: _ => path | _ => 0x2f :: path))
-  | s => some (cutQF s)
+    else if netloc.isEmpty then some (path ++ tail)
+    else some ([0x2f, 0x2f] ++ netloc ++ (if path.head? == some 0x2f then path else 0x2f :: path) ++ tail)
+  else some (cutQF s ++ tail)
 
 /-- octets of the text `none` -/
 def sspNone : Bytes := [0x6e, 0x6f, 0x6e, 0x65]
@@ -294,6 +310,36 @@ def rfcWf (b : Bundle) : Bool :=
   wf b && b.primary.version == 7 && crcFieldOk b.primary.crcType b.primary.crc
   && b.blocks.all (fun c => c.btsd.isSome && crcFieldOk c.crcType c.crc)
   && payloadLast b.blocks
+
+/-! ## RFC 9171 endpoint IDs (independent of the normalisation above) -/
+
+def isNameChar (c : UInt8) : Bool :=
+  (0x30 ≤ c && c ≤ 0x39) || (0x41 ≤ c && c ≤ 0x5a) || (0x61 ≤ c && c ≤ 0x7a)
+  || c == 0x2d || c == 0x2e || c == 0x5f
+def isVchar (c : UInt8) : Bool := 0x21 ≤ c && c ≤ 0x7e
+
+/-- RFC 9171 §4.2.5.1.1: `dtn-hier-part = "//" node-name name-delim demux`, `node-name =
+    1*(ALPHA/DIGIT/"-"/"."/"_")`, `name-delim = "/"`, `demux = *VCHAR`; `dtn:none`;
+    §4.2.5.1.2: two-element ipn. -/
+def rfcEid : Eid → Bool
+  | .dtnNone => true
+  | .ipn ps => ps.length == 2 && ps.all u64
+  | .dtn ssp =>
+    u64 ssp.length && ssp.take 2 == [0x2f, 0x2f] &&
+    (let t := ssp.drop 2
+     let d := t.dropWhile isNameChar
+     !(t.takeWhile isNameChar).isEmpty && d.head? == some 0x2f && d.tail.all isVchar)
+
+/-- `wf` with "EID is a fixed point of the code's normalisation" replaced by "EID is RFC 9171
+    well-formed" — the predicate the property statement speaks about. -/
+def wfRfcEids (b : Bundle) : Bool :=
+  let p := b.primary
+  u64 p.version && u64 p.flags && p.crcType ≤ 2 && rfcEid p.dest && rfcEid p.src && rfcEid p.rpt
+  && u64 p.ts.time && u64 p.ts.seq && u64 p.lifetime
+  && (if isFragment p.flags then u64 p.fragOff && u64 p.totalLen
+      else p.fragOff == 0 && p.totalLen == 0)
+  && (if p.crcType != 0 then wfOptBytes p.crc else p.crc.isNone)
+  && b.blocks.all wfCanonical
 
 /-! ## Independent RFC 9171 encoder (generic CBOR item tree, RFC 8949 §3) -/
 
